@@ -214,6 +214,10 @@ func flattenLineRaw(p []byte) (string, []string) {
 				}
 				_, err := dec.Token() // closing brace
 				must(err)
+				if strings.HasPrefix(key, "n") && dec.More() {
+					// a namespace stays open to the end of the line: members AFTER its closing brace mean it was closed early
+					out = append(out, "}")
+				}
 				continue
 			}
 			switch {
